@@ -5,6 +5,7 @@ import (
 	"encoding/json"
 	"fmt"
 	"reflect"
+	"strings"
 
 	govtypes "github.com/cosmos/cosmos-sdk/x/gov/types"
 	paramproposal "github.com/cosmos/cosmos-sdk/x/params/types/proposal"
@@ -73,7 +74,7 @@ func (w *World) applyParam(st *Step) {
 		act = func(n *Node) { n.app.StorageKeeper.SetParams(w.ctxOf(n), np) }
 	case "mint":
 		np := w.node().app.MintKeeper.GetParams(w.Ctx())
-		if !overlayJSON(&np, st.N) || np.Validate() != nil || !pairsValid(np.ParamSetPairs()) {
+		if !overlayJSONs(&np, st.N, st.S) || np.Validate() != nil || !pairsValid(np.ParamSetPairs()) {
 			return
 		}
 		act = func(n *Node) { n.app.MintKeeper.SetParams(w.ctxOf(n), np) }
@@ -89,6 +90,38 @@ func (w *World) applyParam(st *Step) {
 }
 
 // overlayJSON sets the JSON-named integer fields of v given in n.
+func overlayJSONs(v interface{}, n map[string]int64, sv map[string]string) bool {
+	if !overlayJSON(v, n) {
+		return false
+	}
+	strs := map[string]string{}
+	for k, x := range sv {
+		if strings.HasPrefix(k, "p:") {
+			strs[k[2:]] = x
+		}
+	}
+	if len(strs) == 0 {
+		return true
+	}
+	bz, err := json.Marshal(v)
+	if err != nil {
+		return false
+	}
+	var m map[string]json.RawMessage
+	if json.Unmarshal(bz, &m) != nil {
+		return false
+	}
+	for k, x := range strs {
+		q, _ := json.Marshal(x)
+		m[k] = q
+	}
+	bz, err = json.Marshal(m)
+	if err != nil {
+		return false
+	}
+	return json.Unmarshal(bz, v) == nil
+}
+
 func overlayJSON(v interface{}, n map[string]int64) bool {
 	bz, err := json.Marshal(v)
 	if err != nil {
@@ -126,7 +159,7 @@ func pairsValid(pairs paramtypes.ParamSetPairs) bool {
 var paramKeyOf = map[string]map[string]string{
 	"storage": {"collateralPrice": "CollateralPrice", "attestMinToPass": "AttestMinToPass", "attestFormSize": "AttestFormSize", "proof_window": "ProofWindow",
 		"price_per_tb_per_month": "PricePerTbPerMonth", "pol_ratio": "POLRatio", "referral_commission": "Referrals", "check_window": "CheckWindow", "chunk_size": "ChunkSize"},
-	"mint": {"mint_decrease": "MintIncrease", "tokens_per_block": "TokensPerBlock", "dev_grants_ratio": "DevGrants", "staker_ratio": "StakerRatio", "storage_provider_ratio": "ProviderRatio"},
+	"mint": {"mint_denom": "MintDenom", "mint_decrease": "MintIncrease", "tokens_per_block": "TokensPerBlock", "dev_grants_ratio": "DevGrants", "staker_ratio": "StakerRatio", "storage_provider_ratio": "ProviderRatio"},
 }
 
 var govSubspace = map[string]string{"storage": "storage", "mint": "jklmint"}
@@ -148,6 +181,14 @@ func (w *World) govParamChange(st *Step) {
 			continue
 		}
 		changes = append(changes, paramproposal.NewParamChange(govSubspace[mod], pk, fmt.Sprintf("\"%d\"", st.N[k])))
+	}
+	for _, k := range sortedKeys(st.S) {
+		if strings.HasPrefix(k, "p:") {
+			if pk, has := keys[k[2:]]; has {
+				q, _ := json.Marshal(st.S[k])
+				changes = append(changes, paramproposal.NewParamChange(govSubspace[mod], pk, string(q)))
+			}
+		}
 	}
 	if len(changes) == 0 {
 		return
